@@ -416,6 +416,13 @@ pub fn factory_with(readers: Vec<Box<dyn TilesReaderTrait>>, dir: &std::path::Pa
 			let dir_s = dir_s.clone();
 			Box::pin(async move {
 				let key = filename.strip_prefix(&dir_s).unwrap_or(&filename).trim_start_matches('/').to_string();
+				// sources take differently long to open (a remote container next to a local file):
+				// the callback of `leafN` is pending a few times before it answers, earlier-listed
+				// leaves tend to take longer
+				let n: usize = key.trim_start_matches("leaf").parse().unwrap_or(0);
+				for _ in 0..[3usize, 0, 2, 1, 0, 4][n % 6] {
+					tokio::task::yield_now().await;
+				}
 				map.lock().unwrap().remove(&key).ok_or_else(|| anyhow::anyhow!("harness: no prepared reader for {filename}"))
 			})
 		}),
